@@ -1,12 +1,15 @@
 #!/bin/sh
-# Development aid: apply a seeded change to /repo, run every registered check (tier $2, default quick), undo the change.
+# Development aid: run every registered check (tier $2, default quick) against a scratch copy of /repo/kopf with a seeded change applied.
+# (Equivalent to `git -C /repo apply` + checks + `git -C /repo checkout -- .`, but safe while other work reads /repo.)
 # usage: tools/try_seed.sh <patch.diff> [quick|thorough]
-patch="$1"; tier="${2:-quick}"
+patch="$(readlink -f "$1")"; tier="${2:-quick}"
 cd /verif || exit 2
-[ -n "$(git -C /repo status --porcelain --untracked-files=no)" ] && { echo "/repo is not clean"; exit 2; }
-git -C /repo apply "$patch" || { echo "patch does not apply"; exit 2; }
-trap 'git -C /repo checkout -- . ' EXIT
-export KVERIF_EVIDENCE_DIR="$(mktemp -d /tmp/kverif-seed-ev-XXXXXX)"
+tmp="$(mktemp -d /tmp/kverif-seed-XXXXXX)"
+trap 'rm -rf "$tmp"' EXIT
+cp -r /repo/kopf "$tmp/kopf"
+git -C "$tmp" init -q 2>/dev/null
+( cd "$tmp" && git apply "$patch" ) || { echo "patch does not apply"; exit 2; }
+export KVERIF_REPO="$tmp" KVERIF_EVIDENCE_DIR="$tmp/evidence"
 hit=""
 for p in $(/venv/bin/python -c "import json;print(' '.join(c['property_id'] for c in json.load(open('MANIFEST.json'))['checks']))"); do
   out=$(./bin/check "$p" --tier "$tier" 2>&1); e=$?
@@ -15,5 +18,4 @@ for p in $(/venv/bin/python -c "import json;print(' '.join(c['property_id'] for 
     echo "== $p exit=$e"; echo "$out" | grep -v '^  analysed\|^KNOWN-FINDING\|^  fixed:' | grep -v "^$p \[" | cut -c1-400 | head -6
   fi
 done
-rm -rf "$KVERIF_EVIDENCE_DIR"
 echo "DETECTED-BY:${hit:- none}"
